@@ -136,6 +136,31 @@ Theorem C11_restart_not_worse {T : Type} (Ops : NumOps T) (OL : OrdLaws Ops) obj
   objs_call Ops objs1 ftols2 ob r2 = Ok (objs2, o2) ->
   le Ops (o_fmin o2) (o_fmin o1).
 Proof. exact (objs_restart_not_worse Ops OL objs ftols ob r1 objs1 o1 r2 ftols2 objs2 o2). Qed.
+(** the caller writes the public members between calls (nfunc, mpts, ndim, fmin, y, current_simplex are public data), and calls are
+    abandoned (the objective throws, the caller catches and uses the object again).  "Minimization::minimize ... return ..." holds for
+    the calls made afterwards:
+    - a call with the caller's own arguments gives the same answer in ANY two states of ALL the objects (so: the answer of fresh objects),
+      whatever was written into the members and whatever state an abandoned call left behind;
+    - minimize(m.current_simplex, f) after the caller assigned s to m.current_simplex (and anything to y, nfunc, mpts, ndim, fmin, in any
+      order afterwards) is the answer of a fresh object on s - stale or invented vertex values in y are never used;
+    - a call abandoned at the objective's n-th evaluation has asked for exactly n points, the first n of the completed call's, which begin
+      with the rows of the stated initial simplex in order. *)
+Theorem C11_minimize_any_object_states {T : Type} (Ops : NumOps T) (objs objs' : list nmobj) (ftols : list T) (ob : nat) (r : nmreq) :
+  req_given r = true -> rmap snd (objs_call Ops objs ftols ob r) = rmap snd (objs_call Ops objs' ftols ob r).
+Proof. exact (objs_call_any_state Ops objs objs' ftols ob r). Qed.
+
+Theorem C11_minimize_written_simplex {T : Type} (Ops : NumOps T) (objs : list nmobj) k s ps (ftols : list T) ob f :
+  (k < length objs)%nat -> Forall (fun p => match p with PutS _ => False | _ => True end) ps ->
+  rmap snd (objs_call Ops (fold_left (fun os p => objs_put Ops os k p) ps (objs_put Ops objs k (PutS s))) ftols ob (ReqGS f k))
+  = fresh_call Ops (nth ob ftols (n0 Ops)) (CallG f s).
+Proof. exact (objs_call_written_simplex Ops objs k s ps ftols ob f). Qed.
+
+Theorem C11_abandoned_call_evaluations {T : Type} (Ops : NumOps T) (f : list T -> T) ftol pp n pts :
+  abandoned_call Ops ftol (CallG f pp) n = Ok (Some pts) -> length pts = n /\ exists l, pts = firstn n (pp ++ l).
+Proof. exact (abandoned_general_spec Ops f ftol pp n pts). Qed.
+Print Assumptions C11_minimize_any_object_states.
+Print Assumptions C11_minimize_written_simplex.
+Print Assumptions C11_abandoned_call_evaluations.
 Print Assumptions C11_minimize_history_independent.
 Print Assumptions C11_minimize_member_arguments.
 Print Assumptions C11_restart_not_worse.
